@@ -14,7 +14,8 @@ From Coq Require Import Permutation.
    the digraph {u -> v | v neighbour of u, T u v} with the initially recovered nodes removed;
    S + I + R = N; the history of v (full data) has an I entry at tmin + k iff v is in I_k
    and an R entry exactly one step later (C12_history_entries). *)
-(* Scope: test_recovery = None and initial_infecteds given.  FULL statement of the property also
+(* Scope of THIS theorem: test_recovery = None and initial_infecteds given (runs with a recovery test and the
+   rho path: Props/C04disc.v, C05disc.v, C09disc.v -- every rule, every draw script -- state what those runs are).  FULL statement of the property also
    covers a user recovery test (node stays infectious until the test succeeds; for a rule that is
    a function of the pair the infection times are still the BFS distances) and the rho path
    (initial nodes drawn by random.sample): those two are validated by the correspondence and by
@@ -128,11 +129,11 @@ Print Assumptions C12_perc_graph.
    edge) percolation_based_discrete_SIR -- which flips every coin first, builds H and runs
    discrete_SIR(H, H.has_edge) -- and basic_discrete_SIR -- which looks a coin up when the contact
    is tested -- return the same rows and the same node histories, for any two iteration orders.
-   Equality IN LAW of the two functions under independent Bernoulli(p) coins then follows by the
-   principle of deferred decisions, which is CITED (DESIGN section 3 item 7), not formalised:
-   in basic_discrete_SIR no undirected edge is tested twice as an infectious-susceptible contact
-   (checked dynamically on every run by the query oracle of harness/c12.py), so testing lazily
-   with fresh coins has the law of reading a table of i.i.d. coins fixed in advance. *)
+   Equality IN LAW under independent Bernoulli(p) coins -- the principle of deferred decisions -- is
+   PROVED in Props/C12law.v over the `law` semantics: C12_law_deferred / C12_law_deferred_full (the law of
+   a whole run of basic_discrete_SIR = the law of flipping one coin per arc first and then running the
+   deterministic simulator, for every event on the output), C12_perc_basic_rows_law (percolation-based and
+   basic agree in law on every event of the rows), C12_sis_law_deferred (basic_discrete_SIS). *)
 Theorem C12_perc_sir_pathwise : forall g tt pick ord1 ord2 i0 r0 tmin tmax full fuel1 fuel2,
   wf_inputb g i0 r0 = true -> sym_graphb g = true -> (forall u v, tt u v O = tt v u O) ->
   perm_oracle ord1 -> perm_oracle ord2 ->
